@@ -42,7 +42,7 @@ func eventTimeBufferScenario(r *Run) {
 		maxSteps = []int{8, 16, 32}[hdr.Draw(3)]
 	}
 	row := func(t *Tape, i, sec int) []octosql.Value { return []octosql.Value{idv("x", i), intv(t.Draw(3))} }
-	script := GenChangelog(t.Block(8*maxSteps+10), ChangelogCfg{MaxSteps: maxSteps, Watermarked: true, Retractions: true, Dups: false,
+	script := GenChangelog(t.Block(stepBlock*maxSteps+10), ChangelogCfg{MaxSteps: maxSteps, Watermarked: true, Retractions: true, Dups: false,
 		Row: row, FinalWM: true, ZeroTimeMix: true})
 	attrs := map[string]string{"node": "EventTimeBuffer"}
 	r.Log("event time buffer")
@@ -138,7 +138,7 @@ func eventTimeBufferScenario(r *Run) {
 // with the C18 monitor on its output.
 func pipelineScenario(r *Run, mode string) {
 	t := r.Tape
-	hdr := t.Block(10)
+	hdr := t.Block(24)
 	maxSteps := 8
 	if r.Thorough() {
 		maxSteps = []int{6, 12, 24}[hdr.Draw(3)]
